@@ -11,24 +11,24 @@ import verif as V
 GROUPS = {
     0: "SO2", 1: "SO3", 2: "SE2", 3: "SE3", 4: "C1", 5: "Gal", 6: "SEK3:2", 7: "SEK3:1", 8: "R:3",
     9: "B(SO3,R:3)", 10: "B(SE2,SO2,R:2,SE3)", 11: "B(B(SO3,R:2),C1,SE2)", 12: "B(R:1,SO2,C1)",
-    13: "B(SO3,SO3)", 14: "B(Gal,R:2)", 15: "B(SEK3:2,SO2)", 16: "scalar", 17: "R:5",
+    13: "B(SO3,SO3)", 14: "B(Gal,R:2)", 15: "B(SEK3:2,SO2)", 16: "scalar", 17: "R:5", 18: "SEK3:3", 19: "SEK3:4",
 }
-NO_HESS = {5, 6, 7, 14, 15}
+NO_HESS = {5, 6, 7, 14, 15, 18, 19}
 
 # per property: family, (group, scalar) list and sample count per tier, chunk size (lines per TLC process)
 PLAN = {
     "C01": dict(fam="c01", chunk=300,
-                quick=dict(n=44, gs=[(g, "d") for g in (0, 1, 2, 3, 4, 5, 6, 7, 9, 10, 11)] + [(g, "f") for g in (0, 1, 2, 3, 4, 5, 6)]),
-                thorough=dict(n=660, gs=[(g, "d") for g in range(16)] + [(g, "f") for g in range(12)])),
+                quick=dict(n=44, gs=[(g, "d") for g in (0, 1, 2, 3, 4, 5, 6, 7, 9, 10, 11, 18)] + [(g, "f") for g in (0, 1, 2, 3, 4, 5, 6)]),
+                thorough=dict(n=660, gs=[(g, "d") for g in list(range(16)) + [18, 19]] + [(g, "f") for g in list(range(12)) + [18]])),
     "C02": dict(fam="c02", chunk=100,
-                quick=dict(n=78, gs=[(g, "d") for g in (0, 1, 2, 3, 4, 5, 6, 10)] + [(g, "f") for g in (0, 1, 2, 3, 4, 5, 6)]),
-                thorough=dict(n=1560, gs=[(g, "d") for g in range(16)] + [(g, "f") for g in range(12)])),
+                quick=dict(n=78, gs=[(g, "d") for g in (0, 1, 2, 3, 4, 5, 6, 10, 18)] + [(g, "f") for g in (0, 1, 2, 3, 4, 5, 6)]),
+                thorough=dict(n=1560, gs=[(g, "d") for g in list(range(16)) + [18, 19]] + [(g, "f") for g in list(range(12)) + [18]])),
     "C03": dict(fam="c03", chunk=100,
-                quick=dict(n=44, gs=[(g, "d") for g in (0, 1, 2, 3, 4, 5, 6, 8, 10, 11, 12)] + [(g, "f") for g in (1, 2, 3, 5)]),
-                thorough=dict(n=660, gs=[(g, "d") for g in range(18)] + [(g, "f") for g in range(12)])),
+                quick=dict(n=44, gs=[(g, "d") for g in (0, 1, 2, 3, 4, 5, 6, 8, 10, 11, 12, 18)] + [(g, "f") for g in (1, 2, 3, 5)]),
+                thorough=dict(n=660, gs=[(g, "d") for g in range(20)] + [(g, "f") for g in list(range(12)) + [18]])),
     "C04": dict(fam="c04", chunk=48,
-                quick=dict(n=78, gs=[(g, "d") for g in (0, 1, 2, 3, 4, 5, 6, 11)] + [(g, "f") for g in (1, 2, 3, 5)]),
-                thorough=dict(n=780, gs=[(g, "d") for g in range(16)] + [(g, "f") for g in range(8)])),
+                quick=dict(n=78, gs=[(g, "d") for g in (0, 1, 2, 3, 4, 5, 6, 11, 18)] + [(g, "f") for g in (1, 2, 3, 5)]),
+                thorough=dict(n=780, gs=[(g, "d") for g in list(range(16)) + [18, 19]] + [(g, "f") for g in range(8)])),
     "C05": dict(fam="c05", chunk=5,
                 quick=dict(n=54, gs=[(g, "d") for g in (0, 1, 2, 3, 4, 9, 11)]),
                 thorough=dict(n=270, gs=[(g, "d") for g in (0, 1, 2, 3, 4, 8, 9, 10, 11, 12, 13)])),
